@@ -97,7 +97,7 @@ def _composition_cases(Tmax, with_next):
 
 def gen_cases(rng, tier):
     cases = []
-    n = 500 if tier == "quick" else 12000
+    n = 500 if tier == "quick" else 30000
     for _ in range(n):
         cases.append(_partition_case(rng, "ABM" if rng.random() < 0.65 else "DEVS"))
     cases += list(_composition_cases(4 if tier == "quick" else 6, True))
